@@ -3,6 +3,7 @@ package c08
 import (
 	"context"
 	"fmt"
+	"sync"
 	"testing"
 	"time"
 
@@ -167,3 +168,129 @@ func head(s string, n int) string {
 	}
 	return s
 }
+
+// TestC08CloseRacingRequestsRT: real time. Many goroutines issue requests in tight loops while the connection is closed:
+// every call and Close itself return (a request path that takes a lock twice deadlocks against the Disconnect's writer
+// lock only when the Close arrives between the two acquisitions - repetition finds it).
+func TestC08CloseRacingRequestsRT(t *testing.T) {
+	e := vrun.LoadEnv()
+	meta := vrun.Meta{Property: "C08", Workload: "TestC08CloseRacingRequestsRT", Total: e.Pick(500, 10000),
+		Rule:        "real time: 8-64 goroutines issue SendBaseTime / SendCall / OpenUpstream(+Close) / OpenDownstream(+Close) in tight loops with 300 ms contexts against a cooperative broker; after 0-5 ms Conn.Close (context 2 s) is called from 1-3 goroutines. Oracle: Close and every request call have returned 10 s after their context expired at the latest. non-trivial = at least 5 requests were answered before the close; distinct = scenario tuple",
+		Assumptions: []string{"the 10 s bound is a wall-clock watchdog far above every configured deadline: a call counted as blocked is blocked for good"}}
+	vrun.Loop(t, meta, 0, func(c *vrun.Case) vrun.Result {
+		var res vrun.Result
+		ok, dump := vrun.Watchdog(120*time.Second, func() { res = runCloseRacing(c) })
+		if !ok {
+			res = vrun.WatchdogVerdict("the case never finished")
+			if res.Verdict == vrun.Inconclusive {
+				res.Witness = map[string]any{"dump_head": dump[:min(len(dump), 4000)]}
+			}
+		}
+		return res
+	})
+}
+
+func runCloseRacing(c *vrun.Case) vrun.Result {
+	r := c.Rng
+	workers, closers := []int{8, 16, 32, 64}[r.Intn(4)], 1+r.Intn(3)
+	closeAfter := time.Duration(r.Intn(5000)) * time.Microsecond
+	desc := map[string]any{"request_goroutines": workers, "closers": closers, "close_after_us": closeAfter.Microseconds()}
+	done := func(v vrun.Result) vrun.Result { v.Desc = desc; return v }
+	w := world.New()
+	defer w.Close()
+	w.Start()
+	conn, err := w.Connect(iscp.WithConnPingInterval(time.Hour))
+	if err != nil {
+		return done(vrun.Inconcl("connect: " + err.Error()))
+	}
+	var answered, active atomicCounter
+	stop := make(chan struct{})
+	finished := make(chan struct{}, workers)
+	for i := 0; i < workers; i++ {
+		go func(i int) {
+			defer func() { recover(); finished <- struct{}{} }()
+			for k := 0; ; k++ {
+				select {
+				case <-stop:
+					return
+				default:
+				}
+				ctx, cancel := context.WithTimeout(context.Background(), 300*time.Millisecond)
+				active.add(1)
+				var err error
+				switch (i + k) % 4 {
+				case 0:
+					err = conn.SendBaseTime(ctx, &message.BaseTime{Name: "b", BaseTime: time.Unix(1, 0).UTC()})
+				case 1:
+					_, err = conn.SendCall(ctx, &iscp.UpstreamCall{DestinationNodeID: "n", Name: "c", Type: "t"})
+				case 2:
+					var up *iscp.Upstream
+					up, err = conn.OpenUpstream(ctx, fmt.Sprintf("w%d-%d", i, k), iscp.WithUpstreamFlushPolicyImmediately(), iscp.WithUpstreamCloseTimeout(50*time.Millisecond))
+					if err == nil {
+						up.Close(ctx)
+					}
+				case 3:
+					var d *iscp.Downstream
+					d, err = conn.OpenDownstream(ctx, []*message.DownstreamFilter{{SourceNodeID: "s", DataFilters: []*message.DataFilter{{Name: "#", Type: "#"}}}})
+					if err == nil {
+						d.Close(ctx)
+					}
+				}
+				active.add(-1)
+				cancel()
+				if err == nil {
+					answered.add(1)
+				} else {
+					time.Sleep(100 * time.Microsecond)
+				}
+			}
+		}(i)
+	}
+	time.Sleep(closeAfter)
+	before := answered.get()
+	closed := make(chan struct{}, closers)
+	for i := 0; i < closers; i++ {
+		go func() {
+			ctx, cancel := context.WithTimeout(context.Background(), 2*time.Second)
+			conn.Close(ctx)
+			cancel()
+			closed <- struct{}{}
+		}()
+	}
+	deadline := time.After(12 * time.Second)
+	for i := 0; i < closers; i++ {
+		select {
+		case <-closed:
+		case <-deadline:
+			st := ""
+			if site, text, ok := vrun.StuckOnMutex(); ok {
+				st = site + "\n" + text
+			}
+			return done(vrun.Violation("Conn.Close has not returned 10 s after its context expired", "hang-rt:Conn.Close:racing-requests", map[string]any{"parked_on_mutex": st, "stacks": head(vrun.AllStacks(), 6000)}))
+		}
+	}
+	close(stop)
+	deadline = time.After(11 * time.Second)
+	for i := 0; i < workers; i++ {
+		select {
+		case <-finished:
+		case <-deadline:
+			st := ""
+			if site, text, ok := vrun.StuckOnMutex(); ok {
+				st = site + "\n" + text
+			}
+			return done(vrun.Violation("a request call has not returned 10 s after its context expired (the connection was closed meanwhile)", "hang-rt:request:racing-close", map[string]any{"still_active": active.get(), "parked_on_mutex": st, "stacks": head(vrun.AllStacks(), 6000)}))
+		}
+	}
+	res := vrun.Hold(fmt.Sprintf("%d|%d|%d", workers, closers, closeAfter/time.Millisecond), before >= 5)
+	res.Stat("requests_answered_before_close", before)
+	return done(res)
+}
+
+type atomicCounter struct {
+	mu sync.Mutex
+	n  int64
+}
+
+func (a *atomicCounter) add(d int64) { a.mu.Lock(); a.n += d; a.mu.Unlock() }
+func (a *atomicCounter) get() int64  { a.mu.Lock(); defer a.mu.Unlock(); return a.n }
